@@ -38,7 +38,7 @@ def exact_of(ctx, depths):
 
 
 def norm_of(ctx, obj, p):
-    v = ctx.call(obj.p_norm, p)
+    v = ctx.call(obj.p_norm, p=p)        # keyword: the documented default p = 2 is left out on every second such call (pv/core.py)
     ctx.require(is_real_number(v), "norm_not_a_finite_real", lambda: "p_norm(%r) returned %r" % (p, v))
     return float(v)
 
